@@ -38,7 +38,7 @@ func emit(w *hx.Writer, id string, sc scen, s *poolx.Session, closed bool, queri
 			errs = co.Err.Error()
 		}
 		w.Emit(map[bool]string{true: "pipeline", false: "reuse"}[sc.pipeline], hx.Case{
-			ID:  fmt.Sprintf("%s/q%d", id, q),
+			ID: fmt.Sprintf("%s/q%d", id, q),
 			Coq: hx.App("CRetry", hx.Bool(sc.pipeline), hx.List(ps), hx.Bool(co.Cancelled), hx.Bool(closed), hx.Ni(final), hx.Ni(len(co.Conns)),
 				hx.Ni(co.Stale+sc.extra), hx.Bool(sc.must != nil && sc.must(q) && !co.Cancelled && !closed)),
 			Desc: map[string]any{"scenario": desc, "query": q, "passes": len(co.Passes), "final": final, "err": errs,
